@@ -10,6 +10,7 @@ import (
 	"math/rand"
 	"os"
 	"path/filepath"
+	"runtime/debug"
 	"sort"
 	"strings"
 	"sync"
@@ -94,6 +95,20 @@ func (in *Inst) Close() {
 	}
 }
 
+// libFrames keeps the frames of a stack trace that lie in the library.
+func libFrames(st string) string {
+	var out []string
+	for _, l := range strings.Split(st, "\n") {
+		if strings.Contains(l, "/repo/") {
+			out = append(out, strings.TrimSpace(l))
+		}
+	}
+	if len(out) > 6 {
+		out = out[:6]
+	}
+	return strings.Join(out, " | ")
+}
+
 // Transact executes the operations the way the server does: Transact, then
 // Commit unless a result carries an error.
 func (in *Inst) Transact(ops []ovsdb.Operation) (results []*ovsdb.OperationResult, err error) {
@@ -102,7 +117,7 @@ func (in *Inst) Transact(ops []ovsdb.Operation) (results []*ovsdb.OperationResul
 		// a panic of the engine is an outcome to be judged, not a harness failure
 		defer func() {
 			if r := recover(); r != nil {
-				results, err = nil, fmt.Errorf("panic: %v", r)
+				results, err = nil, fmt.Errorf("panic: %v\n%s", r, libFrames(string(debug.Stack())))
 			}
 		}()
 		tx := in.DB.NewTransaction(name)
